@@ -6,7 +6,7 @@
     {"fn":"makeValid","name":s,"others":[sib..], "rules":[..]?} -> {"id":s,"finished":b,"repEq":b}
     {"fn":"check","ids":[s..]} -> {"ok":[b..]}
     {"fn":"spec","obs":[{"name":s,"ident":s,"rename":b,"assigned":b}]} -> {"scopeOk":b,"distinct":b,"elem":[b..]}
-  "rules" = [len255, underscore, foldCase, room] selects Old.* with these rules; absent = the
+  "rules" = [len255, underscore, foldCase, room, bitForms]; sib objects may carry "bits":[n..] selects Old.* with these rules; absent = the
   repaired model of Model.lean (the one the theorems are about).
 -/
 import Spydr.Common.Proto
@@ -28,7 +28,11 @@ def getSib (j : Json) : Except String Sib := do
   let rename ← match j.getObjVal? "rename" with
     | .error _ => pure false
     | .ok v => v.getBool?
-  pure { name := name.toList, ident := ident, rename := rename, assigned := false }
+  let bits ← match j.getObjVal? "bits" with
+    | .error _ => pure []
+    | .ok .null => pure []
+    | .ok v => do let a ← v.getArr?; natList a
+  pure { name := name.toList, ident := ident, rename := rename, assigned := false, bits := bits }
 
 def getSibs (j : Json) (k : String) : Except String (List Sib) := do
   let a ← getArr j k
@@ -42,8 +46,8 @@ def getRules (j : Json) : Except String (Option Old.Rules) :=
       let a ← v.getArr?
       let bs ← a.toList.mapM (·.getBool?)
       match bs with
-      | [a, b, c, d] => pure (some ⟨a, b, c, d⟩)
-      | _ => throw "rules: expected 4 booleans"
+      | [a, b, c, d, e] => pure (some ⟨a, b, c, d, e⟩)
+      | _ => throw "rules: expected 5 booleans"
 
 def str (s : Str) : Json := Json.str (String.ofList s)
 
@@ -60,7 +64,11 @@ def getObs (j : Json) : Except String Spec.Obs := do
   let ident ← getStr j "ident"
   let rename ← getBool j "rename"
   let assigned ← getBool j "assigned"
-  pure { name := name.toList, ident := ident.toList, rename := rename, assigned := assigned }
+  let bits ← match j.getObjVal? "bits" with
+    | .error _ => pure []
+    | .ok .null => pure []
+    | .ok v => do let a ← v.getArr?; natList a
+  pure { name := name.toList, ident := ident.toList, rename := rename, assigned := assigned, bits := bits }
 
 def handle (st : Unit) (j : Json) : Except String (Unit × Json) := do
   let fn ← getStr j "fn"
@@ -81,18 +89,24 @@ def handle (st : Unit) (j : Json) : Except String (Unit × Json) := do
         ("finished", Json.bool fin),
         ("scopeOk", Json.bool (Spec.scopeOk obs)),
         ("distinct", Json.bool (Spec.identsDistinct obs)),
+        ("nets", Json.arr ((emittedNetIdents out).map str).toArray),
+        ("netsDistinct", Json.bool (Spec.allDistinct (Spec.netIdents obs))),
         ("repEq", Json.bool (decide (Old.assignAll Old.Rules.repaired sibs = rep)))])
   | "makeValid" =>
       let name ← getStr j "name"
       let others ← getSibs j "others"
       let rules ← getRules j
-      let rep := makeValidF name.toList others
+      let bits ← match j.getObjVal? "bits" with
+        | .error _ => pure []
+        | .ok .null => pure []
+        | .ok v => do let a ← v.getArr?; natList a
+      let rep := makeValidF bits name.toList others
       let r := match rules with
         | none => rep
-        | some R => Old.makeValidF R name.toList others
+        | some R => Old.makeValidF R bits name.toList others
       pure (st, Json.mkObj [
         ("id", str r.1), ("finished", Json.bool r.2),
-        ("repEq", Json.bool (decide (Old.makeValidF Old.Rules.repaired name.toList others = rep)))])
+        ("repEq", Json.bool (decide (Old.makeValidF Old.Rules.repaired bits name.toList others = rep)))])
   | "check" =>
       let a ← getArr j "ids"
       let ids ← strList a
@@ -104,6 +118,7 @@ def handle (st : Unit) (j : Json) : Except String (Unit × Json) := do
       pure (st, Json.mkObj [
         ("scopeOk", Json.bool (Spec.scopeOk obs)),
         ("distinct", Json.bool (Spec.identsDistinct obs)),
+        ("netsDistinct", Json.bool (Spec.allDistinct (Spec.netIdents obs))),
         ("elem", Json.arr elem.toArray)])
   | _ => throw s!"unknown fn {fn}"
 
